@@ -276,21 +276,28 @@ hl_stubs! {
         let mut seen = before;
         hl.update_seen(&mut seen);
         unsafe {
-            // `*seen || load == 0` short-circuits: a slot already known drained is not loaded again
-            let expect = (!before[0]) as usize + (!before[1]) as usize;
-            assert!(TN == expect && count(LOCK_LOAD) == expect, "C01.U-STEP: one pass loads each not-yet-drained reader slot exactly once and does nothing else");
+            // values this pass observed, by slot (1 = "not loaded")
             let mut v = [1usize, 1usize];
+            let mut loaded = [false, false];
             let mut i = 0;
             while i < 2 {
-                if i < TN {
-                    assert!(!before[TR[i].a] && TR[i].seqcst, "C01.U-STEP: only undrained slots are loaded, SeqCst");
+                if i < TN && TR[i].k == LOCK_LOAD {
                     v[TR[i].a] = TR[i].b;
+                    loaded[TR[i].a] = true;
                 }
                 i += 1;
             }
-            assert!(TN < 2 || TR[0].a != TR[1].a, "C01.U-STEP: the two loads are of the two different slots");
-            assert!(seen[0] == (before[0] || v[0] == 0) && seen[1] == (before[1] || v[1] == 0),
+            assert!((before[0] || loaded[0]) && (before[1] || loaded[1]), "C01.U-STEP: one pass examines every reader slot that is not yet known drained");
+            assert!(seen[0] == (before[0] || (loaded[0] && v[0] == 0)) && seen[1] == (before[1] || (loaded[1] && v[1] == 0)),
                 "C18.STICKY: a slot counts as drained iff it did before or it was observed at zero in this pass (never forgotten, never invented)");
+            assert!(TN == count(LOCK_LOAD) && TN <= 2 && (TN < 2 || TR[0].a != TR[1].a), "C01.U-STEP: a pass consists of at most one load per slot and nothing else");
+            let mut i = 0;
+            while i < 2 {
+                if i < TN {
+                    assert!(TR[i].seqcst, "C01.R-SEQCST: barrier loads are SeqCst");
+                }
+                i += 1;
+            }
             ENV_ON = false;
         }
         kani::cover!(!before[0] && seen[0] && !seen[1], "C18.cover: one slot drains first");
